@@ -1015,7 +1015,7 @@ def report(rec, case: dict, problems: list[Problem], nt: bool, ref: dict) -> Non
 # ------------------------------------------------------------------------------------------
 def shards(tier: str, seed: int) -> list[dict]:
     if tier == "quick":
-        return [{"count": 40, "perms": 6} for _ in range(16)]
+        return [{"count": 80, "perms": 6} for _ in range(16)]
     return [{"count": 313, "perms": 24} for _ in range(16)]
 
 
